@@ -25,6 +25,7 @@ writer that is still open, after any history) and `drop_after_close_noop` (drop 
 closed explicitly).  What is read off the source rather than proven is only that `drop` calls `close`.
 -/
 import Sds.Proofs.Writer
+import Sds.Generated.SerConsts
 
 namespace Sds.C12
 open Sds Outcome RawWriter
@@ -185,6 +186,13 @@ theorem int_drop_open_writer_complete (width bufLen : Nat) (xs : List Word) (h1 
   exact h
 
 /-! ### a failing sink: never a truncated file reported as success -/
+
+/-- **obligation on the source, re-checked on every run**: `impl Drop for RawVectorWriter` and `impl Drop for
+IntVectorWriter` exist and call `self.close()` (extracted by tools/gen_lean.py); together with
+`drop_open_writer_complete` / `int_drop_open_writer_complete` (drop = close in the model) this is the clause
+"dropping an open writer leaves the same complete file" -/
+theorem drop_calls_close :
+    Generated.RAW_WRITER_DROP_CLOSES = true ∧ Generated.INT_WRITER_DROP_CLOSES = true := by decide
 
 /-- for every write budget of the sink the run either succeeds with the complete, correct file, or stops
 with the `unwrap` panic of a push (as the code does) or the io error of `close` -/
